@@ -42,6 +42,11 @@ type kcase struct {
 	Obs    bool  `json:"observability"`
 	Otel   bool  `json:"otel"` // the real OpenTelemetry implementation instead of the recording one
 	Setter bool  `json:"legacy_hooks_by_setter"`
+	// FilterCancel j>0: handler j-1 is subscribed with a filter whose predicate cancels the
+	// publish context and accepts the event. The predicate is user code that runs during the
+	// publish: the context is cancelled before handler j-1 is due, so neither it (if
+	// synchronous) nor a later synchronous handler is started.
+	FilterCancel int `json:"cancel_in_filter_of_handler,omitempty"`
 }
 
 func (k kcase) String() string {
@@ -54,6 +59,9 @@ func (k kcase) String() string {
 		c = "before"
 	} else if k.Cancel >= 0 {
 		c = fmt.Sprintf("in-handler-%d", k.Cancel)
+	}
+	if k.FilterCancel > 0 {
+		c = fmt.Sprintf("in-filter-of-handler-%d", k.FilterCancel-1)
 	}
 	return fmt.Sprintf("[%s] cancel=%s hooks=%04b obs=%v otel=%v setter=%v", strings.Join(hs, " "), c, k.Hooks, k.Obs, k.Otel, k.Setter)
 }
@@ -139,6 +147,14 @@ func (in *inst) Body() {
 	defer cancel()
 	for i, kd := range k.H {
 		i := i
+		var filter func(id int) bool
+		if k.FilterCancel == i+1 {
+			filter = func(int) bool {
+				in.rec.Add("cancel", i, 1, "")
+				cancel()
+				return true
+			}
+		}
 		A.SubCustom(bus, func(hctx context.Context, id int) {
 			s := ""
 			if hctx != nil {
@@ -158,7 +174,7 @@ func (in *inst) Body() {
 				}
 			}
 			in.rec.Add("exit", i, id, "")
-		}, nil, kinds[kd].o)
+		}, filter, kinds[kd].o)
 	}
 	if k.Cancel == -1 {
 		cancel()
@@ -238,6 +254,11 @@ func (in *inst) Check(res *vrt.Result) []vrt.Violation {
 		return n
 	}
 	cancelPos := first("cancel")
+	// the last handler that may still start synchronously once the context is cancelled
+	cancelAt := k.Cancel
+	if k.FilterCancel > 0 {
+		cancelAt = k.FilterCancel - 2
+	}
 	firstEnter := first("enter")
 	lastSyncExit := -1
 	for i, e := range evs {
@@ -299,13 +320,15 @@ func (in *inst) Check(res *vrt.Result) []vrt.Violation {
 			}
 		case n > 1:
 			bad("delivery", fmt.Sprintf("%s handler ran %d times for one publish", kinds[kd].name, n))
-		case !o.Async && cancelPos >= 0 && i > k.Cancel:
-			if n != 0 {
+		case !o.Async && cancelPos >= 0 && i > cancelAt:
+			if n != 0 && k.FilterCancel > 0 {
+				bad("ran-cancelled", fmt.Sprintf("synchronous (%s) handler started after the context had been cancelled by a filter predicate of the same publish", kinds[kd].name))
+			} else if n != 0 {
 				bad("ran-cancelled", fmt.Sprintf("synchronous (%s) handler started after the context had been cancelled by an earlier handler", kinds[kd].name))
 			}
 		case !o.Async && n != 1:
 			bad("delivery", fmt.Sprintf("synchronous (%s) handler did not run although the context was live when it was due", kinds[kd].name))
-		case o.Async && k.Cancel == -2 && n != 1:
+		case o.Async && k.Cancel == -2 && k.FilterCancel == 0 && n != 1:
 			bad("delivery", fmt.Sprintf("%s handler ran %d times with a live context", kinds[kd].name, n))
 		}
 		if n == 1 && o.Ctx {
@@ -372,6 +395,18 @@ func cases(thorough bool) []kcase {
 		}
 	}
 	rec(nil)
+	// a filter predicate cancels the context: every list of one or two handlers, every position
+	for a := range kinds {
+		for _, hooks := range []int{0, 15} {
+			for _, obs := range []bool{false, true} {
+				l = append(l, kcase{H: []int{a}, Cancel: -2, Hooks: hooks, Obs: obs, FilterCancel: 1})
+				for b := range kinds {
+					l = append(l, kcase{H: []int{a, b}, Cancel: -2, Hooks: hooks, Obs: obs, FilterCancel: 1},
+						kcase{H: []int{a, b}, Cancel: -2, Hooks: hooks, Obs: obs, FilterCancel: 2})
+				}
+			}
+		}
+	}
 	return l
 }
 
